@@ -479,7 +479,7 @@ def judge(res, pdef):
             break
         if c in ('dmgsweep', 'crashsweep', 'flipsweep', 'faultsweep', 'cancelsweep', 'toolsweep', 'conc', 'killcheck') and impl.startswith('sweep ok'):
             impl = 'sweep ok'      # the count of damaged copies is reported, not compared
-        impl_only = c in pdef.get('impl_only_cmds', ()) or (c in pdef.get('impl_only_if_ct', ()) and ' rt=ct' in res['script'][0])
+        impl_only = c == 'fcounts' or c in pdef.get('impl_only_cmds', ()) or (c in pdef.get('impl_only_if_ct', ()) and ' rt=ct' in res['script'][0])
         if impl != model and not nomodel and not impl_only and not disagreed:
             # remember the first disagreement, but keep looking: the oracle may confirm a violation a few
             # lines later (e.g. at the `states` probe that follows a delete)
